@@ -13,12 +13,35 @@ import (
 type LogModel struct {
 	First, Last uint64 // 0,0 when empty
 	Entries     map[uint64]*raft.Log
+	// LastEver is the highest index the log ever held (raft continues there after a
+	// compaction that emptied the log).
+	LastEver uint64
+}
+
+// StartCont as an append's start index means: if the log is empty, continue right after
+// the highest index it ever held (1 for a log that never held anything).
+const StartCont = ^uint64(0)
+
+// ResolveStart gives the index of the first entry of an append described by opStart
+// (0 => 1, StartCont => LastEver+1, else the value itself) when the log is empty, and
+// Last+1 otherwise.
+func (m *LogModel) ResolveStart(opStart uint64) uint64 {
+	if !m.Empty() {
+		return m.Last + 1
+	}
+	switch opStart {
+	case 0:
+		return 1
+	case StartCont:
+		return m.LastEver + 1
+	}
+	return opStart
 }
 
 func NewLogModel() *LogModel { return &LogModel{Entries: map[uint64]*raft.Log{}} }
 
 func (m *LogModel) Clone() *LogModel {
-	c := &LogModel{First: m.First, Last: m.Last, Entries: make(map[uint64]*raft.Log, len(m.Entries))}
+	c := &LogModel{First: m.First, Last: m.Last, LastEver: m.LastEver, Entries: make(map[uint64]*raft.Log, len(m.Entries))}
 	for k, v := range m.Entries {
 		c.Entries[k] = v
 	}
@@ -60,6 +83,9 @@ func (m *LogModel) Append(logs []*raft.Log) {
 	for _, l := range logs {
 		m.Entries[l.Index] = CloneLog(l)
 		m.Last = l.Index
+	}
+	if m.Last > m.LastEver {
+		m.LastEver = m.Last
 	}
 }
 
